@@ -132,7 +132,12 @@ def _seq_strategy(n, weights):
             + [w(0, t[2] if t[2] != t[1] else [n for n in mvccprog.PLAIN if n != t[1]][0], t[3]), ['savepoint', 0], w(1, t[1], t[3]), ['commit', 1],
                ['commit', 0], ['readall', 0], ['read', 0, mvccprog.ROOT]]
             + [w(0, t[2] if t[2] != t[1] else [n for n in mvccprog.PLAIN if n != t[1]][0], t[3]), ['commit', 0]] + t[4])
-        return st.one_of(free, free.map(list), phased, phased_rc, phased_sp)
+        # ... a declared dependency on X, a change of X that is thrown away again, another object written
+        phased_dc = st.tuples(st.lists(op, max_size=3), st.sampled_from(mvccprog.PLAIN), st.sampled_from(mvccprog.PLAIN), st.booleans(),
+                              st.lists(op, min_size=1, max_size=6)).map(
+            lambda t: t[0] + [['begin', 0], ['begin', 1], ['readcurrent', 0, t[1]]] + ([['write', 0, t[1]], ['discard', 0, t[1]]] if t[3] else [['write', 0, t[1]], ['readcurrent', 0, t[1]], ['discard', 0, t[1]]])
+            + [['write', 0, [n for n in mvccprog.PLAIN if n != t[1]][0]], ['write', 1, t[1]], ['commit', 1], ['commit', 0]] + t[4])
+        return st.one_of(free, free.map(list), phased, phased_rc, phased_sp, phased_dc)
     return st.integers(2, 3).flatmap(lambda nc: st.fixed_dictionaries({
         'kind': st.sampled_from(['fs', 'fs', 'mapping', 'demo', 'demo-fs']),
         'nconn': st.just(nc), 'pool': st.sampled_from([1, 2, 7]),
